@@ -153,6 +153,7 @@ type Machine struct {
 	sinks          map[string][]*udpState
 	sinkCount      int
 	hashInjective  bool
+	concreteHashes bool
 	divSplit       int
 	divMemo        map[*Term]divRes
 	opaqueHash     map[string]*Term
